@@ -13,8 +13,10 @@ import (
 	"fmt"
 	"os"
 	"runtime"
+	"runtime/debug"
 	"runtime/metrics"
 	"strings"
+	"sync/atomic"
 
 	"github.com/zclconf/go-cty/cty"
 	ctyjson "github.com/zclconf/go-cty/cty/json"
@@ -930,6 +932,57 @@ func c17Guard(recLen int, fn func() (cty.Value, cty.Type, error)) (o c17Outcome)
 	return o
 }
 
+var c17LiveSample = []metrics.Sample{{Name: "/memory/classes/heap/objects:bytes"}}
+
+func heapObjects() uint64 {
+	metrics.Read(c17LiveSample)
+	if c17LiveSample[0].Value.Kind() == metrics.KindUint64 {
+		return c17LiveSample[0].Value.Uint64()
+	}
+	return 0
+}
+
+// peakLive estimates the peak of the heap in use while fn runs, above what was in use before: the collector is
+// set to run whenever the heap has grown by a twentieth (so that garbage does not pile up into the measure), a
+// second goroutine samples the bytes occupied by heap objects as fast as it can, fn runs on this one. An
+// under-estimate if a peak falls between two samples, an over-estimate by the garbage not yet swept: a
+// measurement, treated as such (reported only when it reproduces in a fresh process).
+func peakLive(fn func()) uint64 {
+	old := debug.SetGCPercent(5)
+	defer debug.SetGCPercent(old)
+	runtime.GC()
+	base := heapObjects()
+	var peak atomic.Uint64
+	stop := make(chan struct{})
+	done := make(chan struct{})
+	go func() {
+		defer close(done)
+		for {
+			select {
+			case <-stop:
+				return
+			default:
+			}
+			if h := heapObjects(); h > peak.Load() {
+				peak.Store(h)
+			}
+		}
+	}()
+	func() {
+		defer func() { recover() }()
+		fn()
+	}()
+	if h := heapObjects(); h > peak.Load() {
+		peak.Store(h)
+	}
+	close(stop)
+	<-done
+	if p := peak.Load(); p > base {
+		return p - base
+	}
+	return 0
+}
+
 func exactAlloc(fn func()) uint64 {
 	var a, b runtime.MemStats
 	runtime.GC()
@@ -1003,6 +1056,20 @@ func simC17Store(c *Ctx) {
 	}
 	ri := c.G(nRec)
 	rec := store[ri]
+	forced := false
+	if c.G(20000) == 0 {
+		forced = true
+		// the documents of the recorded finding on huge exponents (known_findings.txt), read back undamaged with the
+		// type that makes the decoder hash and compare the number: every batch meets them
+		docs := []struct {
+			doc string
+			t   *TDesc
+		}{{"[1e999999]", &TDesc{K: KSet, Elem: tNumber}}, {`{"value":[1e999999],"type":["set","number"]}`, tDynamic}, {"[1e-9999]", &TDesc{K: KSet, Elem: tNumber}}}
+		d := docs[c.G(len(docs))]
+		rec = c17Record{codec: "json", data: []byte(d.doc), t: d.t, enc: d.t, desc: d.doc}
+		store[ri] = rec
+		c.Probe("c17.huge-exponent-document")
+	}
 	var others [][]byte
 	for i, r := range store {
 		if i != ri {
@@ -1011,7 +1078,8 @@ func simC17Store(c *Ctx) {
 	}
 	// ---- the store damages the record between write and read
 	data := append([]byte(nil), rec.data...)
-	control := c.F(10) == 0 && rec.codec != "noise" && rec.codec != "crafted"
+	drawnControl := c.F(10) == 0
+	control := (drawnControl || forced) && rec.codec != "noise" && rec.codec != "crafted"
 	var applied []string
 	if !control {
 		var enabled []int
@@ -1117,7 +1185,15 @@ func simC17Store(c *Ctx) {
 			c.Fail("C17", "decoder-panic", "panic:"+d.name+":"+panicClass(o.pan),
 				"%s panicked on a %d-byte record: %v\nrecord: %x\ntarget type: %s", d.name, len(data), o.pan, clipBytes(data), target)
 		}
-		bound := uint64(4<<20) + 16384*uint64(len(data))
+		// in-use bound: a constant plus 16384 x the record size. The constant is 4 MiB for the MessagePack decoders
+		// (vmihailenco/msgpack reads a declared blob in 1 MB chunks and doubles once before it meets the end of
+		// the input: not go-cty's, not proportional to the input) and 1 MiB for the JSON decoders, which have no
+		// declared lengths
+		konst := uint64(4 << 20)
+		if strings.HasPrefix(d.name, "json.") {
+			konst = 1 << 20
+		}
+		bound := konst + 16384*uint64(len(data))
 		// allocation totals are slightly noisy: a search run reports only what exceeds the bound by a
 		// quarter, the fresh-process confirmation accepts anything above the bound itself
 		report := bound + bound/4
@@ -1125,12 +1201,16 @@ func simC17Store(c *Ctx) {
 			report = bound
 		}
 		if o.alloc > bound {
-			// the metric is flushed lazily: confirm with exact accounting before reporting
-			// (three times, keeping the smallest: the first call in a process also pays for lazily
-			// built tables in math/big and encoding/json, which are not the record's doing)
-			ex := exactAlloc(func() { d.fn() })
+			// The total allocated while decoding is only a screen (cheap, but it also counts what was garbage
+			// right away: sorting a set of sets of numbers renders the same numbers again and again and
+			// allocates tens of kilobytes per input byte without ever holding more than a few at a time).
+			// What the property bounds is the memory in use: measure the peak of the live heap over the decode
+			// (three times, keeping the smallest: the first call in a process also pays for lazily built tables
+			// in math/big and encoding/json, which are not the record's doing).
+			c.Probe("c17.total-allocation-above-bound:" + d.name)
+			ex := peakLive(func() { d.fn() })
 			for k := 0; k < 2; k++ {
-				if e2 := exactAlloc(func() { d.fn() }); e2 < ex {
+				if e2 := peakLive(func() { d.fn() }); e2 < ex {
 					ex = e2
 				}
 			}
@@ -1140,8 +1220,8 @@ func simC17Store(c *Ctx) {
 					asig += ":huge-exponent"
 				}
 				c.Fail("C17", "excessive-allocation", asig,
-					"%s allocated %d bytes while decoding a %d-byte record; the bound is 4 MiB + 16384 x the record size = %d\nrecord: %x\ntarget type: %s",
-					d.name, ex, len(data), bound, clipBytes(data), target)
+					"%s held %d bytes of heap at its peak (and allocated %d in total) while decoding a %d-byte record; the bound is %d MiB + 16384 x the record size = %d\nrecord: %x\ntarget type: %s",
+					d.name, ex, exactAlloc(func() { d.fn() }), len(data), konst>>20, bound, clipBytes(data), target)
 			}
 		}
 		if o.alloc > bound/8 {
